@@ -14,7 +14,10 @@ from hv import Source, rewrite, strip_comments, ExtractionError, leftover_check,
 CLASSES = ["Directive", "Data", "Label", "Func", "Proc", "InstrImm", "InstrLabel", "InstrOp", "Padding"]
 WANT = ["getToken", "setByteOffset", "getByteOffset", "isAssembled", "operandIsLabel", "getSize", "getValue", "setLabelValue",
         "isRelative", "getLabel", "setLength"]
-TYPEMAP = {"size_t": "size_t", "Token": "Token", "int": "int", "bool": "bool", "unsigned": "unsigned"}
+TYPEMAP = {"size_t": "size_t", "Token": "Token", "int": "int", "bool": "bool", "unsigned": "unsigned",
+           # other integer widths keep their width (a narrowed member truncates in the extracted text exactly as in C++)
+           "uint8_t": "uint8_t", "uint16_t": "uint16_t", "uint32_t": "uint32_t", "uint64_t": "uint64_t", "int8_t": "int8_t", "int16_t": "int16_t", "int32_t": "int32_t",
+           "int64_t": "int64_t", "short": "short", "long": "long", "unsigned short": "unsigned short", "unsigned long": "unsigned long", "char": "char", "unsigned char": "unsigned char"}
 
 
 def family(manifest):
